@@ -234,7 +234,9 @@ def extract():
     facts["dataSlotInsideLock"] = bool(re.search(r"data\s*:\s*RwLock\s*<\s*Option\s*<\s*Arc\s*<\s*D\s*>\s*>\s*>", no_hooks))
     # ---- child slots: a candidate is installed only into an empty slot ----------------------------
     twn = body_of(no_hooks, r"fn\s+try_write\s*\(")
-    facts["slotInstallOnlyIfEmpty"] = bool(twn and re.search(r"if\s+slot\s*\.\s*is_none\s*\(\s*\)\s*\{\s*\*\s*slot\s*=\s*Some\s*\(\s*elem\s*\)\s*;\s*\}\s*else\s*\{", twn))
+    facts["slotInstallOnlyIfEmpty"] = bool(twn and re.search(
+        r"if\s+(?:slot\s*\.\s*is_none\s*\(\s*\)|unsafe\s*\{\s*\(\s*\*\s*slot\s*\)\s*\.\s*is_none\s*\(\s*\)\s*\})\s*\{\s*"
+        r"(?:\*\s*slot\s*=\s*Some\s*\(\s*elem\s*\)\s*;|unsafe\s*\{\s*\*\s*slot\s*=\s*Some\s*\(\s*elem\s*\)\s*\}\s*;)\s*\}\s*else\s*\{", twn))
     facts["slotAssignments"] = len(re.findall(r"\*\s*slot\s*=", no_hooks))
 
     # ---- derive macro: comparator of the generated range assertion ------------------------------
